@@ -112,6 +112,18 @@ def apply_contract(ctx, cs, fn, args, kwargs):
             ctx.call_spec(h, nsh)
         v = ctx.call_spec(c.requires, nsr)
         ctx.prove("%s/pre@%s" % (caller, c.short), ctx.as_goal(v))
+    outer_ghost = ctx.ghost
+    ctx.ghost = dict(outer_ghost)
+    try:
+        return _apply_contract_tail(ctx, c, fn, target, ns, ghosts)
+    finally:
+        # the callee's ghost snapshots live in their own scope
+        ctx.ghost = outer_ghost
+
+
+def _apply_contract_tail(ctx, c, fn, target, ns, ghosts):
+    if c.setup_spec is not None:
+        ctx.call_spec(c.setup_spec, ns)
     old = types.SimpleNamespace(**{k: ctx.clone(v) for k, v in ns.items()})
     # exceptional outcomes (over-approximated: any declared exception may occur when allowed)
     ncases = 1 + len(c.raises)
@@ -136,6 +148,13 @@ def apply_contract(ctx, cs, fn, args, kwargs):
         set_field(ctx, obj, attr, val)
     for path in c.open_dicts:
         open_dict_of(ctx, ns, path)
+    for key, shape in c.state.items():
+        owner, attr = key
+        val = shape.make(ctx, ctx.fresh_name("%s.%s@%s" % (getattr(owner, "__name__", "?"), attr, c.short)))
+        if isinstance(owner, type):
+            ctx.class_overlay[(owner, attr)] = val
+        else:
+            ctx.module_overlay[(owner, attr)] = val
     if isinstance(target, type) and c.returns is None and c.effect is None:
         raise Unsupported("constructor contract needs a returns shape")
     result = None
